@@ -52,7 +52,8 @@ OPNUM = {'+': 'Z.add', '*': 'Z.mul', '-': 'Z.sub'}
 # class id = 4 * base + rate code; base identifies "Name[/operator]/o<outputs>/s<special index>"
 _CID, _SID = {}, {}
 RCODE = {'scalar': 0, None: 0, 'control': 1, 'audio': 2, 'demand': 3}
-NOUTS = {'Pan2': 2, 'Out': 0, 'ReplaceOut': 0}
+NOUTS = {'Pan2': 2, 'Out': 0, 'ReplaceOut': 0, 'OffsetOut': 0, 'LocalOut': 0, 'XOut': 0}
+META = {'localout_kr_rate': 'audio'}
 SPECIAL = {'BinaryOpUGen/+': 0, 'BinaryOpUGen/-': 1, 'BinaryOpUGen/*': 2, 'UnaryOpUGen/neg': 0}
 
 
@@ -335,12 +336,83 @@ class Gen:
 
     def out(self):
         pre = self.prelude()
-        rate = self.rng.choice(['out_ar', 'out_ar', 'out_ar', 'out_kr'])
+        cls = self.rng.choice(['Out', 'Out', 'ReplaceOut', 'OffsetOut', 'XOut', 'XOut', 'LocalOut'])
+        rate = self.rng.choice(['out_ar', 'out_ar', 'out_kr'])
+        if cls == 'OffsetOut':
+            rate = 'out_ar'                      # OffsetOut.kr raises NotImplementedError by design
         bus = self.tree(pre, 1, [0, 1, 2, 8], empty=0.0, tuples=0.0, p_list=0.25, p_unit=0.1)
         self.mylist = True
         output = self.tree(pre, self.rng.choice([0, 1, 2, 2, 3, 4]), [0, 0, 0, 1, 7, -1], empty=0.04, tuples=0.06, p_list=0.92)
         self.mylist = False
-        return {'kind': rate, 'pre': pre, 'cls': self.rng.choice(['Out', 'Out', 'ReplaceOut']), 'bus': bus, 'output': output}
+        case = {'kind': rate, 'pre': pre, 'cls': cls, 'bus': bus, 'output': output}
+        if cls == 'XOut':
+            case['xfade'] = self.tree(pre, 1, [0, 1, 5], empty=0.0, tuples=0.0, p_list=0.3, p_unit=0.2)
+        if cls == 'LocalOut':
+            case['bus'] = None
+        return case
+
+
+_LIN = ['inmin', 'inmax', 'outmin', 'outmax']
+METH_SIG = {     # ChannelList convenience methods: parameter names, number of required ones
+    'madd': (['mul', 'add'], 0), 'range': (['lo', 'hi'], 0), 'exprange': (['lo', 'hi'], 0),
+    'curverange': (['lo', 'hi', 'curve'], 0), 'unipolar': (['mul'], 0), 'bipolar': (['mul'], 0),
+    'clip': (['lo', 'hi'], 0), 'fold': (['lo', 'hi'], 0), 'wrap': (['lo', 'hi'], 0), 'min_nyquist': ([], 0),
+    'blend': (['other', 'frac'], 1), 'lag': (['time'], 0), 'lag2': (['time'], 0), 'lag3': (['time'], 0),
+    'lagud': (['utime', 'dtime'], 0), 'lag2ud': (['utime', 'dtime'], 0), 'lag3ud': (['utime', 'dtime'], 0),
+    'varlag': (['time', 'curvature', 'wrap', 'start'], 0), 'slew': (['up', 'down'], 0),
+    'prune': (['min', 'max', 'type'], 2),
+    'linlin': (_LIN + ['clip'], 4), 'linexp': (_LIN + ['clip'], 4), 'explin': (_LIN + ['clip'], 4), 'expexp': (_LIN + ['clip'], 4),
+    'lincurve': (_LIN + ['curve', 'clip'], 4), 'curvelin': (_LIN + ['curve', 'clip'], 4),
+    'bilin': (['incenter', 'inmin', 'inmax', 'outcenter', 'outmin', 'outmax', 'clip'], 6),
+    'biexp': (['incenter', 'inmin', 'inmax', 'outcenter', 'outmin', 'outmax', 'clip'], 6),
+    'moddif': (['that', 'mod'], 0), 'check_bad_values': (['id', 'post'], 0)}
+OTHER_METHODS = {'dup', 'sum', 'poll', 'dpoll'}          # have case kinds of their own
+# methods a NUMBER element answers (UGenScalar)
+SCALAR_METHODS = {'clip', 'fold', 'wrap', 'blend', 'lag', 'lag2', 'lag3', 'lagud', 'lag2ud', 'lag3ud', 'varlag', 'slew', 'prune',
+                  'linlin', 'linexp', 'explin', 'expexp', 'lincurve', 'curvelin', 'bilin', 'biexp', 'moddif'}
+
+
+def gen_clmeth(g):
+    """any ChannelList convenience method with explicit trailing optional arguments, scalars, lists and
+    nested lists in every position: compared with the right-hand side of channel_list_methods_law"""
+    rng = g.rng
+    meth = rng.choice(sorted(METH_SIG))
+    names, nreq = METH_SIG[meth]
+    pre = g.prelude(need_unit=True)
+    recv = g.receiver(pre, rng.choice([1, 1, 2]), numbers=(meth in SCALAR_METHODS))
+    ngiven = len(names) if rng.random() < 0.5 else rng.randint(nreq, len(names))
+
+    def one(name):
+        if name in ('clip', 'type'):
+            return rng.choice([['S', 'minmax'], ['S', 'min'], ['S', 'max'], ['N'], ['S', 'min'], ['N']])
+        if name == 'start' and rng.random() < 0.5:
+            return ['N']
+        if name == 'other' or rng.random() < 0.12:
+            return g.ref(pre)
+        v = rng.choice(['0', '1', '-1', '2', '1/2', '1/4', '10', '-4', '440', '1/16', '3'])
+        return ['Q', v] if '/' in v else [rng.choice('KF'), int(v)]
+
+    def value(name):
+        r = rng.random()
+        if r < 0.5:
+            return one(name)
+        if r < 0.9:
+            return ['L', [one(name) for _ in range(rng.choice([1, 2, 2, 3, 4]))]]
+        return ['L', [one(name), ['L', [one(name) for _ in range(rng.choice([1, 2]))]]]]
+    return {'kind': 'clmeth', 'pre': pre, 'meth': meth, 'self': recv, 'args': [value(nm) for nm in names[:ngiven]]}
+
+
+def out_fixed(case):
+    return [case[key] for key in ('bus', 'xfade') if case.get(key) is not None]
+
+
+def out_rate(case):
+    if case['kind'] == 'out_ar':
+        return 'audio'
+    # LocalOut.kr passes 'audio' to _multi_new in sc3 (sclang: 'control'); the property text does not
+    # fix the rate of an output unit, so the rate the tree under test gives a mono LocalOut.kr is
+    # taken as given (META) and every unit of an expanded call must have that same rate
+    return META['localout_kr_rate'] if case['cls'] == 'LocalOut' else 'control'
 
 
 # ---------------------------------------------------------------------------
@@ -408,9 +480,9 @@ def model_call1(case):
     if k == 'muladd_new':
         return 'muladd_new %s %s %s %s' % (BB, T(case['self']), T(case['mul']), T(case['add']))
     if k == 'out_ar':
-        return 'out_ar %s %s %s %s' % (cid('DC', 'audio'), cid(case['cls'], 'audio'), T(case['bus']), T(case['output']))
+        return 'out_ar_gen %s %s [%s] %s' % (cid('DC', 'audio'), cid(case['cls'], 'audio'), '; '.join(T(x) for x in out_fixed(case)), T(case['output']))
     if k == 'out_kr':
-        return 'out_kr %s %s %s' % (cid(case['cls'], 'control'), T(case['bus']), T(case['output']))
+        return 'out_kr_gen %s [%s] %s' % (cid(case['cls'], out_rate(case)), '; '.join(T(x) for x in out_fixed(case)), T(case['output']))
     raise ValueError(k)
 
 
@@ -423,6 +495,8 @@ def show(t):
         return str(t[1])
     if k == 'F':
         return '%s.0' % t[1]
+    if k == 'Q':
+        return repr(float(__import__('fractions').Fraction(t[1])))
     if k == 'B':
         return str(bool(t[1]))
     if k == 'Z':
@@ -457,7 +531,7 @@ def show_call(case):
         c = '%s %s %s' % (show(case['a']), case['op'], show(case['b']))
     elif k == 'clunop':
         c = '-%s' % show(case['a'])
-    elif k == 'method':
+    elif k in ('method', 'clmeth'):
         c = '%s.%s(%s)' % (show(case['self']), case['meth'], ', '.join(show(a) for a in case['args']))
     elif k == 'dup':
         c = '%s.dup(%d)' % (show(case['self']), case['n'])
@@ -474,7 +548,7 @@ def show_call(case):
     elif k == 'muladd_new':
         c = 'MulAdd.new(%s, %s, %s)' % (show(case['self']), show(case['mul']), show(case['add']))
     else:
-        c = '%s.%s(%s, %s)' % (case.get('cls', 'Out'), k[-2:], show(case['bus']), show(case['output']))
+        c = '%s.%s(%s)' % (case.get('cls', 'Out'), k[-2:], ', '.join(show(x) for x in out_fixed(case) + [case['output']]))
     c += '   [same object for equal lists]' if case.get('share') else ''
     c += '   [called twice with the same argument objects]' if case.get('twice') else ''
     return (pre + '; ' if pre else '') + c
@@ -548,6 +622,8 @@ def gen_cases(ctx):
         cases.append(A(g.sum()))
         cases.append(A(g.poll()))
         cases.append(g.narop())
+    for _ in range(n * 2):
+        cases.append(gen_clmeth(g))
     return cases
 
 
@@ -609,7 +685,7 @@ def tag_violation(case, o):
         return None
     if k in ('out_ar', 'out_kr', 'poll', 'dpoll', 'dup') or (k == 'method' and case['meth'] != 'range'):
         allowed = {}
-        for key in ('self', 'bus', 'output', 'trig', 'tid', 'run'):
+        for key in ('self', 'bus', 'xfade', 'output', 'trig', 'tid', 'run'):
             if key in case:
                 leaf_tags(case[key], allowed)
         for a in case.get('args', []) if k == 'method' else []:
@@ -629,12 +705,31 @@ def tag_violation(case, o):
 def correspond(ctx):
     c = Corr()
     cases = gen_cases(ctx)
-    out = ctx.impl('c03_mce', {'cases': cases}, timeout=900)['out']
-    items, direct_bad = [], []
+    impl_res = ctx.impl('c03_mce', {'cases': cases}, timeout=900)
+    out = impl_res['out']
+    META.update({k2: v for k2, v in impl_res.get('meta', {}).items() if k2 in META})
+    c.notes.append('tree under test: LocalOut.kr creates a %s-rate unit' % META['localout_kr_rate'])
+    items, direct_bad, clm_bad, item_idx = [], [], [], []
     for idx, (case, o) in enumerate(zip(cases, out)):
         k = case['kind']
-        c.count('kind:' + k)
+        c.count('kind:' + k + (':' + case['cls'] if k in ('out_ar', 'out_kr') else ''))
         units_only = k in ('out_ar', 'out_kr')
+        if k == 'clmeth':
+            # model-free side of channel_list_methods_law: the whole call against the per-channel calls of
+            # the theorem's right-hand side (leaf = the element's own method), result tree and ORDERED units
+            if 'clmeth' not in o:
+                direct_bad.append((idx, 'implementation runner: %s' % (o['err'],)))
+                continue
+            A, B = o['clmeth']['A'], o['clmeth']['B']
+            c.count('clmeth:' + case['meth'])
+            c.count('clmeth-result:' + (A['err'] or 'ok'))
+            npre = len(case['pre'])
+            if (A['res'], A['err'], A['units'][npre:]) != (B['res'], B['err'], B['units'][npre:]) or \
+               (A['err'] is None and A['top'] != 'ChannelList'):
+                clm_bad.append((idx, A, B))
+            elif A['err'] is None and len(A['units']) - npre >= 1:
+                c.nontriv(case)
+            continue
         pre = cunits(prelude_units(case['pre']))
         if o['err'] is not None:
             code = o['err'][0]
@@ -667,17 +762,19 @@ def correspond(ctx):
             if case.get(flag):
                 c.count('aliasing:' + flag)
         items.append('(observe (%s) %s, %s, %s)' % (model_call(case), pre, exp, 'true' if units_only else 'false'))
+        item_idx.append(idx)
     bad, errs = fw.check_shards(ctx, 'mce', HEADER, items, BODY, shard=120)
     c.evaluations = len(cases)
     c.rule = ('random argument shapes (scalars incl. strings/None, tuples, lists and ChannelLists of lengths 0-4, nesting depth <= 3, '
               'default-filled and keyword positions) given to 9 real UGen classes whose ar/kr/ir delegate directly to _multi_new '
               '(incl. the two-output Pan2), to + * - and unary minus on ChannelLists and on UGens (both operand orders), to the '
-              'ChannelList methods lag lag2 lag3 lagud slew clip fold wrap moddif madd dup sum poll dpoll, to MulAdd.new, and to Out/ReplaceOut .ar/.kr with nested channel '
+              'ChannelList methods lag lag2 lag3 lagud slew clip fold wrap moddif range madd dup sum poll dpoll, to MulAdd.new, and to EVERY output constructor (Out ReplaceOut OffsetOut XOut LocalOut, .ar and .kr) with nested channel '
               'arrays and literal zeros; compared: the result tree (units by creation index and output channel, constants by value) '
               'and the complete list of units created in the SynthDef in creation order with their input vectors, or the exception '
               'kind.  non-trivial = the call expanded (result is a channel list) or created at least two units')
     for e in errs:
         c.failures.append(Failure('correspondence', 'coq evaluation of the model failed: ' + e))
+    bad = [item_idx[i] for i in bad]
     allbad = {i: 'model and implementation disagree' for i in bad}
     for i in bad:
         c.count('disagree:' + cases[i]['kind'])
@@ -688,6 +785,19 @@ def correspond(ctx):
         c.failures.append(Failure('correspondence', '%s on  %s  : implementation result=%s units=%s err=%s' % (
             allbad[i], show_call(cases[i]), out[i]['res'], out[i]['units'][len(cases[i]['pre']):], out[i]['err']),
             replay={'call': show_call(cases[i]), 'case': cases[i], 'impl': out[i]}))
+    for i, A, B in sorted(clm_bad, key=lambda t: case_size(cases[t[0]]))[:4]:
+        npre = len(cases[i]['pre'])
+        c.failures.append(Failure('search', 'ChannelList.%s does not follow the wrap-and-zip law: %s : the call gives %s / %d units %s, '
+                                  'the per-channel calls give %s / %d units %s' % (
+                                      cases[i]['meth'], show_call(cases[i]), A['err'] or json.dumps(A['res'])[:200], len(A['units']) - npre,
+                                      json.dumps(A['units'][npre:])[:300], B['err'] or json.dumps(B['res'])[:200], len(B['units']) - npre,
+                                      json.dumps(B['units'][npre:])[:300]),
+                                  signature='C03:clmeth:' + cases[i]['meth'], found_input=True, theorem='channel_list_methods_law',
+                                  replay={'call': show_call(cases[i]), 'case': cases[i], 'whole_call': A, 'per_channel_calls': B}))
+    known = set(METH_SIG) | OTHER_METHODS
+    newm = [m for m in impl_res.get('meta', {}).get('channel_list_methods', []) if m not in known]
+    if newm:
+        c.notes.append('ChannelList methods without a case kind: %s' % newm)
     c.samples = [{'call': show_call(k), 'impl_result': o['res'], 'impl_units_created': len(o['units']) - len(k['pre']), 'err': o['err']}
                  for k, o in list(zip(cases, out))[:8]]
     ctx.c03_cases = cases
@@ -707,7 +817,7 @@ def law_probe(ctx, failures, n):
     g = Gen(ctx.rng)
     def probeable(k):
         # tuples are sequences for list_binop (docstring, pinned by tests/test_multichannel.py): outside the probe
-        return k['kind'] != 'out_kr' and not (k['kind'] in ('clbinop', 'clrbinop') and '"T"' in json.dumps(k))
+        return not (k['kind'] in ('clbinop', 'clrbinop') and '"T"' in json.dumps(k))
     cases = [k for k in FIXED if probeable(k)]
     for f in failures:
         k = (f.replay or {}).get('case')
@@ -742,10 +852,10 @@ def law_probe(ctx, failures, n):
                                  replay={'call': show_call(k), 'case': k, 'observed': b['whole'], 'expected': b['parts']},
                                  found_input=True, theorem='channel_list_poll_law' if k['kind'] == 'poll' else None))
             continue
-        if k['kind'] == 'out_ar':
-            found.append(Failure('search', 'output units must receive audio-rate silence for literal zeros: %s : %s' % (show_call(k), b['why']),
+        if k['kind'] in ('out_ar', 'out_kr'):
+            found.append(Failure('search', 'output units must receive the spliced channel array, zeros silenced: %s : %s' % (show_call(k), b['why']),
                                  signature=sig, replay={'call': show_call(k), 'case': k, 'units_created': b['whole']},
-                                 found_input=True, theorem='out_splice_and_silence_partial'))
+                                 found_input=True, theorem='out_splice_and_silence_all_classes'))
             continue
         found.append(Failure('search', 'wrap-and-zip law fails on the implementation: %s : %s (whole call: %d units, per-channel calls: %d units); '
                              'result %s, expected the channel list of %s' % (show_call(k), b['why'], b['whole_units'], b['parts_units'],
